@@ -61,6 +61,13 @@ class Session(object):
         for full in self.prog.funcs:
             pkg, short = spec_key(full)
             self.byspec['%s::%s' % (pkg, short)] = full
+        for k in [k for k in self.specs.funcs if '@@' in k]:
+            # a further region contract of a function: a pseudo-function that shares the SSA body
+            base = self.byspec.get(k.split('@@')[0])
+            if base is not None:
+                full = base + '@@' + k.split('@@')[1]
+                self.prog.funcs[full] = self.prog.funcs[base]
+                self.byspec[k] = full
         self.bind_closures()
         self.workdir = workdir or tempfile.mkdtemp(prefix='gowp-')
         self.unbound = [k for k in self.specs.funcs if k not in self.byspec and not self.specs.funcs[k].trusted and '::' in k and k.split('::')[0] in pkgs]
